@@ -28,13 +28,15 @@ StateViol(r) ==
    \* loop goroutines run on their own: while one is about to call Update, or about to exit after Stop,
    \* the snapshot may already show its next step, so those two sets are compared only in settled states
    \cup (IF ~LoopPending' /\ SeqToSet(r.inflight) # inflight' THEN {"C17_OneFillPerGroup"} ELSE {})
-   \cup (IF ~ExitPending' /\ SeqToSet(r.loops) # loops' THEN {"C17_OneLoopPerGroup"} ELSE {})
+   \* (the statement speaks of loops "until stopped": what a RefreshLoop call does on a stopped cache - start a
+   \*  loop that exits at once, or refuse - is left open, so after Stop the loop set is not compared)
+   \cup (IF ~stopped' /\ ~ExitPending' /\ SeqToSet(r.loops) # loops' THEN {"C17_OneLoopPerGroup"} ELSE {})
    \cup (IF r.note # "" THEN {"C17_StepDidNotComplete"} ELSE {})
 
 EvViol(r) ==
    CASE r.ev = "update" -> IF r.started # last'.started THEN {"C17_OneFillPerGroup"} ELSE {}
-     [] r.ev = "loop" -> IF r.started # last'.started THEN {"C17_OneLoopPerGroup"} ELSE {}
-     [] r.ev = "loopupdate" -> IF r.started # last'.started THEN {"C17_OneLoopPerGroup"} ELSE {}
+     [] r.ev = "loop" -> IF ~stopped /\ r.started # last'.started THEN {"C17_OneLoopPerGroup"} ELSE {}
+     [] r.ev = "loopupdate" -> IF ~stopped /\ r.started # last'.started THEN {"C17_OneLoopPerGroup"} ELSE {}
      [] r.ev = "fill" -> IF r.res # last'.res \/ SeqToSet(r.mem) # last'.mem THEN {"HARNESS_FillResult"} ELSE {}
      [] r.ev = "end" -> IF r.res \notin {"loop", IF last'.res = "ok" THEN "ok" ELSE "notok"} THEN {"C17_UpdateResult"} ELSE {}
      [] r.ev = "get" -> IF r.has # last'.has \/ SeqToSet(r.mem) # last'.mem THEN {"C17_CacheContents"} ELSE {}
